@@ -60,7 +60,7 @@ type Op struct {
 	Full    bool   `json:"full,omitempty"`
 	N       int    `json:"n,omitempty"` // writecf: number of filter hashes
 	BadPrev bool   `json:"badprev,omitempty"`
-	H       int32  `json:"h,omitempty"` // rollback height
+	H       int32  `json:"h,omitempty"`     // rollback height
 	WFail   int    `json:"wfail,omitempty"` // headers: the k-th BlockHeaders.WriteHeaders call of the operation fails
 	Obs     string `json:"obs,omitempty"`
 	Term    string `json:"term,omitempty"`
@@ -76,6 +76,8 @@ type History struct {
 	Params ParamSpec `json:"params"`
 	Nodes  []*Node   `json:"nodes"`
 	Ops    []Op      `json:"ops"`
+	// a long-chain backlog history (long.go) instead of a tree and operations
+	Long *LongSpec `json:"long,omitempty"`
 }
 
 func mkParams(ps ParamSpec, t *Tree) *chaincfg.Params {
@@ -800,6 +802,68 @@ func genOps(r, r2 *rand.Rand, t *Tree, v *env, nops int, now0 int64) []Op {
 			emit(Op{Kind: "headers", Peer: 1, Now: nowOK(), Nodes: nodeIDs(t.path(t.atHeight(int(ci.h)-1), ci.bad))})
 		}
 		syncTo(1, mainTip, v.r4)
+	case t.stale != nil:
+		// two reorganisation attempts in a row, no restart and no change
+		// of the sync peer in between: X (tie or lighter: refused), then Y
+		// forking higher up, at a height X covers
+		si := t.stale
+		nb := func() int64 { return si.nowBig + int64(v.r4.Intn(300)) }
+		ps[1] = &pstate{leaf: si.yTip, sent: si.aTip}
+		alive[1] = true
+		emit(Op{Kind: "newpeer", Peer: 1, Start: si.yTip.Height, Last: si.yTip.Height, Full: true})
+		firstPeer = 2
+		full := t.path(t.Nodes[0], si.aTip)
+		for i := 0; i < len(full); {
+			k := 4 + v.r4.Intn(9)
+			if i+k > len(full) {
+				k = len(full) - i
+			}
+			emit(Op{Kind: "headers", Peer: 1, Now: nb(), Nodes: nodeIDs(full[i : i+k])})
+			i += k
+		}
+		if v.r4.Intn(2) == 0 {
+			cfBatch(2+v.r4.Intn(5), false, nil)
+		}
+		xp := 1
+		if v.r4.Intn(4) == 0 {
+			// X comes from another peer (listened to only if the
+			// client is current)
+			ps[2] = &pstate{leaf: si.xTip, sent: si.xTip}
+			alive[2] = true
+			emit(Op{Kind: "newpeer", Peer: 2, Start: si.xTip.Height, Last: si.xTip.Height, Full: true})
+			xp, firstPeer = 2, 3
+		}
+		emit(Op{Kind: "headers", Peer: xp, Now: nb(), Nodes: nodeIDs(t.path(si.fork, si.xTip))})
+		if v.r4.Intn(3) == 0 {
+			cfBatch(1+v.r4.Intn(3), false, nil)
+		}
+		emit(Op{Kind: "headers", Peer: 1, Now: nb(), Nodes: nodeIDs(t.path(si.yFork, si.yTip))})
+		if v.r4.Intn(2) == 0 {
+			// and once more (the scratch list now holds Y)
+			emit(Op{Kind: "headers", Peer: 1, Now: nb(), Nodes: nodeIDs(t.path(si.yFork, si.yTip))})
+		}
+	case t.shv != nil:
+		// a branch with FEWER headers but strictly more work, across a
+		// retarget, revealed in one message by the sync peer: adopted
+		hi := t.shv
+		ps[1] = &pstate{leaf: hi.aTip, sent: hi.aTip}
+		alive[1] = true
+		emit(Op{Kind: "newpeer", Peer: 1, Start: hi.aTip.Height, Last: hi.aTip.Height, Full: true})
+		firstPeer = 2
+		syncTo(1, hi.aTip, v.r4)
+		if v.r4.Intn(2) == 0 {
+			cfBatch(2+v.r4.Intn(5), false, nil)
+		}
+		if v.r4.Intn(3) == 0 {
+			// first without its last header: still lighter or a tie? no:
+			// 4 per header against x <= 6 in total: one post-retarget
+			// header only is lighter (4 < x + 0) only if x > 4; either
+			// way model and implementation must agree
+			bp := t.path(hi.fork, hi.bTip)
+			emit(Op{Kind: "headers", Peer: 1, Now: nowOK(), Nodes: nodeIDs(bp[:len(bp)-1])})
+		}
+		emit(Op{Kind: "headers", Peer: 1, Now: nowOK(), Nodes: nodeIDs(t.path(hi.fork, hi.bTip))})
+		ps[1].leaf, ps[1].sent = hi.bTip, hi.bTip
 	case t.rtg != nil:
 		// both clamps of the difficulty adjustment: the header computed
 		// without the clamp in extension position (refused), the clamped
@@ -1311,6 +1375,10 @@ func runHistory(id int, seed int64, nops int, base string, replay *History) (h H
 			t = genCpInvTree(r4, &ps, now0)
 		case smode >= 66 && smode < 76:
 			t = genRetargetTree(r4, &ps, now0)
+		case smode >= 76 && smode < 83:
+			t = genStaleCtxTree(r4, &ps, now0)
+		case smode >= 83 && smode < 90:
+			t = genShortHeavyTree(r4, &ps, now0)
 		case rmode < 12:
 			t = genRestartTree(r3, &ps, now0)
 		case mode < 15:
@@ -1421,7 +1489,7 @@ func main() {
 	os.MkdirAll(base, 0o755)
 	defer os.RemoveAll(base)
 
-	n, nops := 52, 30
+	n, nops := 60, 30
 	if a.Tier == "thorough" {
 		n, nops = 1200, 40
 	}
@@ -1430,7 +1498,7 @@ func main() {
 	if a.Replay != "" {
 		var h History
 		c.ReadJSON(a.Replay, &h)
-		if len(h.Nodes) == 0 {
+		if len(h.Nodes) == 0 && h.Long == nil {
 			// a replay file written by ./check: the history is wrapped
 			var w struct {
 				History History `json:"history"`
@@ -1450,6 +1518,55 @@ func main() {
 			corpus = append(corpus, h)
 		}
 		n += len(corpus)
+	}
+	// the long-chain backlog histories (long.go): with -prop C19, two fixed
+	// shapes per run; they run beside the tree histories
+	var longHs []History
+	var longFails []string
+	var lwg sync.WaitGroup
+	startLong := func(id int, spec LongSpec) {
+		k := len(longHs)
+		longHs = append(longHs, History{})
+		longFails = append(longFails, "")
+		lwg.Add(1)
+		go func() {
+			defer lwg.Done()
+			longHs[k], longFails[k] = runLong(id, a.Seed, base, spec)
+		}()
+	}
+	finishLong := func() {
+		lwg.Wait()
+		if len(longHs) == 0 {
+			return
+		}
+		c.WriteFile(filepath.Join(a.Out, "cases_long.v"), longCasesFile(longHs))
+		for k := range longHs {
+			h := &longHs[k]
+			p := filepath.Join(a.Out, fmt.Sprintf("hist-%d.json", h.ID))
+			c.WriteJSON(p, h)
+			rep.Cases[fmt.Sprint(h.ID)] = p
+			rep.Histogram["histories_long_chain_backlog"]++
+			rep.Histogram["long_chain_backlog_requests"] += len(h.Long.Reqs)
+			if longFails[k] != "" {
+				rep.ImplFailures = append(rep.ImplFailures, c.ImplFailure{Case: fmt.Sprint(h.ID), Step: 0,
+					What: "long-chain backlog history: " + longFails[k], Tag: "panic"})
+			}
+		}
+		rep.Evaluations += len(longHs)
+	}
+	if replay != nil && replay.Long != nil {
+		sp := *replay.Long
+		sp.Term = ""
+		startLong(replay.ID, sp)
+		finishLong()
+		rep.Rule = "replay of a long-chain backlog history"
+		rep.Write(a.Out)
+		return
+	}
+	if replay == nil && prop == "C19" {
+		for _, ls := range longSpecs {
+			startLong(ls.id, LongSpec{N: ls.n, F: ls.f})
+		}
 	}
 	hs := make([]History, n)
 	envs := make([]*env, n)
@@ -1592,6 +1709,12 @@ func main() {
 		if envs[i].tree.cpinv != nil {
 			rep.Histogram["histories_invalid_extension_below_checkpoint_scenario"]++
 		}
+		if envs[i].tree.stale != nil {
+			rep.Histogram["histories_two_reorg_attempts_stale_context_scenario"]++
+		}
+		if envs[i].tree.shv != nil {
+			rep.Histogram["histories_shorter_heavier_branch_scenario"]++
+		}
 		if envs[i].tree.rtg != nil {
 			rep.Histogram["histories_retarget_clamps_scenario"]++
 		}
@@ -1611,8 +1734,9 @@ func main() {
 		}
 	}
 	rep.Evaluations = n
+	finishLong()
 	rep.DistinctNontrivial = len(distinct)
-	rep.Rule = "histories on the real blockManager handlers over real header stores: a random block tree (main chain 8-30, up to 4 forks incl. work ties and longer branches, single-rule corruptions: pow, bits, time-old, time-new, version) under random parameters (retarget interval 3-8, no-retarget / min-difficulty / BIP94 flags, 0-3 checkpoints, in-memory window 2..10000) revealed by 1-4 peers in chunks, duplicates, overlaps, unconnected batches, with inv, peer arrivals/departures, filter-header batches; scenario histories from a separate PRNG stream: (15%) two checkpoints closer together than one headers message with a valid branch leaving the main chain right after the first one, ONE message from the sync peer through both checkpoint heights while the tip is below the first; (-prop C19, 45%) main chain synced, filter headers committed in batches of >= 3 up to the tip, then a longer valid branch forking >= 2 blocks below the tip, then batches on the new branch; histories with restarts from a third PRNG stream (30%): a restart builds a NEW blockManager (newBlockManager through the verif hook) over the SAME stores, re-installs the notification plumbing and forgets all peers, which have to connect again; (12%) scripted: main chain synced under no-retargeting, filter headers committed, restart, then the new sync peer reveals an equal-work and a lighter branch forking >= 2 blocks below the stored tip (below the whole in-memory window: refused) and a heavier one (adopted); (18%) a restart right before a peer reveals a fork below the stored tip, or at a random point; scenario histories from a fourth PRNG stream: (10%) checkpoint fork under no-retargeting: the client follows a side branch whose tip is exactly ONE BELOW a checkpoint when the heavier main chain through the checkpoint is revealed (handed over by peer departure, restart, or a second peer), or its tip is exactly ON the checkpoint when a heavier branch forking below it is revealed (refused), then a heavier branch forking exactly AT the reached checkpoint (adopted); (10%) flip-flop on one running store: A synced, top of A sent again, heavier B adopted, then A extended by 2-3 headers comes back (adopted), from the same or another peer; (8%) two checkpoints closer together than one message, the client on a side branch below the first: ONE competing message from the fork point through both checkpoint heights that matches the first and contradicts the second (invalid: chain unchanged), then the control matching both; in flip-flop histories and the random stream also messages whose first header (stored, or a valid child of the stored tip) is not the parent of the second while the rest is linked; (15%) a checkpoint above the tip and a single-rule-invalid header (time-old / bits with a valid proof of work for the wrong bits / version / time-new / pow) in EXTENSION position below it, alone or as the suffix of a batch with a valid prefix; (10%) retargeting at a difficulty above the minimum with one period far shorter than timespan/4 and one far longer than timespan*4: at both retarget heights the header computed WITHOUT the clamp (refused, in extension and in reorg position) and the clamped one (accepted); in flip-flop and restart-fork histories also a reorganising message whose linked part only ties with the headers it would displace and whose LAST header does not build on the one before it; (8%) the batch reaching a checkpoint is lost to a failing BlockHeaders.WriteHeaders, then a branch connecting to the stored tip with a different header at the checkpoint height; (15%) the k-th WriteHeaders call (k = 1, 2) of random headers messages fails (a wrapper around the block header store; operation OHeadersF); a restart also closes and re-opens both header stores; with -prop C19 every operation runs against an unbuffered notification channel and NotificationsSinceHeight is probed while the handler is blocked on event k and after it returned (histogram backlog_probes*), also with the n-th FetchHeaderByHeight of the request made to fail through a wrapper of the block header store (backlog_requests_with_read_fault); non-trivial = the history contains a rollback/reorganisation (disconnect events) and committed filter headers (connect events); distinct = distinct op-kind signature"
+	rep.Rule = "histories on the real blockManager handlers over real header stores: a random block tree (main chain 8-30, up to 4 forks incl. work ties and longer branches, single-rule corruptions: pow, bits, time-old, time-new, version) under random parameters (retarget interval 3-8, no-retarget / min-difficulty / BIP94 flags, 0-3 checkpoints, in-memory window 2..10000) revealed by 1-4 peers in chunks, duplicates, overlaps, unconnected batches, with inv, peer arrivals/departures, filter-header batches; scenario histories from a separate PRNG stream: (15%) two checkpoints closer together than one headers message with a valid branch leaving the main chain right after the first one, ONE message from the sync peer through both checkpoint heights while the tip is below the first; (-prop C19, 45%) main chain synced, filter headers committed in batches of >= 3 up to the tip, then a longer valid branch forking >= 2 blocks below the tip, then batches on the new branch; histories with restarts from a third PRNG stream (30%): a restart builds a NEW blockManager (newBlockManager through the verif hook) over the SAME stores, re-installs the notification plumbing and forgets all peers, which have to connect again; (12%) scripted: main chain synced under no-retargeting, filter headers committed, restart, then the new sync peer reveals an equal-work and a lighter branch forking >= 2 blocks below the stored tip (below the whole in-memory window: refused) and a heavier one (adopted); (18%) a restart right before a peer reveals a fork below the stored tip, or at a random point; scenario histories from a fourth PRNG stream: (10%) checkpoint fork under no-retargeting: the client follows a side branch whose tip is exactly ONE BELOW a checkpoint when the heavier main chain through the checkpoint is revealed (handed over by peer departure, restart, or a second peer), or its tip is exactly ON the checkpoint when a heavier branch forking below it is revealed (refused), then a heavier branch forking exactly AT the reached checkpoint (adopted); (10%) flip-flop on one running store: A synced, top of A sent again, heavier B adopted, then A extended by 2-3 headers comes back (adopted), from the same or another peer; (8%) two checkpoints closer together than one message, the client on a side branch below the first: ONE competing message from the fork point through both checkpoint heights that matches the first and contradicts the second (invalid: chain unchanged), then the control matching both; in flip-flop histories and the random stream also messages whose first header (stored, or a valid child of the stored tip) is not the parent of the second while the rest is linked; (15%) a checkpoint above the tip and a single-rule-invalid header (time-old / bits with a valid proof of work for the wrong bits / version / time-new / pow) in EXTENSION position below it, alone or as the suffix of a batch with a valid prefix; (10%) retargeting at a difficulty above the minimum with one period far shorter than timespan/4 and one far longer than timespan*4: at both retarget heights the header computed WITHOUT the clamp (refused, in extension and in reorg position) and the clamped one (accepted); in flip-flop and restart-fork histories also a reorganising message whose linked part only ties with the headers it would displace and whose LAST header does not build on the one before it; (7%) two reorganisation attempts in a row on one running block manager: sibling branches A (accepted) and X (tie or one header lighter, refused) whose timestamps lie many median windows apart (X far earlier or far later), then a longer branch Y forking at an A header whose height X covers, its first header's timestamp between the true median time and the one computed over X (invalid Y: refused; valid Y: adopted); (7%) a fork below a retarget boundary whose branch has FEWER headers than it displaces but strictly more work because one of the two retarget clamps binds (branch period far shorter than timespan/4, or the accepted chain's far longer than timespan*4), revealed in one message (adopted); (8%) the batch reaching a checkpoint is lost to a failing BlockHeaders.WriteHeaders, then a branch connecting to the stored tip with a different header at the checkpoint height; (15%) the k-th WriteHeaders call (k = 1, 2) of random headers messages fails (a wrapper around the block header store; operation OHeadersF); a restart also closes and re-opens both header stores; with -prop C19 also two fixed long-chain backlog histories (both header stores filled with ~4500 entries, a real block manager over them, NotificationsSinceHeight from 2002/2001/2000/1999 blocks below the committed tip, 1, 100, the tip, one above and 0; run-length encoded, judged by coq/C19/ReplayLong.v); with -prop C19 every operation runs against an unbuffered notification channel and NotificationsSinceHeight is probed while the handler is blocked on event k and after it returned (histogram backlog_probes*), also with the n-th FetchHeaderByHeight of the request made to fail through a wrapper of the block header store (backlog_requests_with_read_fault); non-trivial = the history contains a rollback/reorganisation (disconnect events) and committed filter headers (connect events); distinct = distinct op-kind signature"
 	for i := 0; i < n && i < 2; i++ {
 		rep.Samples = append(rep.Samples, hs[i])
 	}
